@@ -5,14 +5,15 @@ Records the outcome in seeded/<name>/meta.json (detected_by)."""
 import json, os, subprocess, sys
 ROOT = os.path.dirname(os.path.dirname(os.path.abspath(__file__)))
 name = sys.argv[1]
-d = os.path.join(ROOT, "seeded", name)
+REPO = os.environ.get("VERIF_REPO", "/repo")
+d = os.path.join(os.environ.get("SEEDED_DIR", os.path.join(ROOT, "seeded")), name)
 meta = json.load(open(os.path.join(d, "meta.json")))
 props = sys.argv[2:] or [meta["property"]]
 tier = os.environ.get("TIER", "quick")
-st = subprocess.run(["git", "-C", "/repo", "status", "--porcelain", "--untracked-files=no"], capture_output=True, text=True).stdout.strip()
+st = subprocess.run(["git", "-C", REPO, "status", "--porcelain", "--untracked-files=no"], capture_output=True, text=True).stdout.strip()
 if st:
-    print("refusing: /repo has local modifications"); sys.exit(2)
-r = subprocess.run(["git", "-C", "/repo", "apply", os.path.join(d, "patch.diff")])
+    print("refusing: %s has local modifications" % REPO); sys.exit(2)
+r = subprocess.run(["git", "-C", REPO, "apply", os.path.join(d, "patch.diff")])
 if r.returncode != 0:
     print("patch does not apply"); sys.exit(2)
 res = {}
@@ -26,7 +27,7 @@ try:
         for l in tail[-6:]:
             print("    " + l[:200])
 finally:
-    subprocess.run(["git", "-C", "/repo", "checkout", "--", "."])
+    subprocess.run(["git", "-C", REPO, "checkout", "--", "."])
 det = meta.get("detected_by") or {}
 det.update({p: ("detected" if v["exit"] == 1 else "missed" if v["exit"] == 0 else "tool-error") + " (%s tier)" % tier for p, v in res.items()})
 meta["detected_by"] = det
